@@ -118,6 +118,7 @@ def main(argv):
         for c in getattr(mod, 'THOROUGH_CONFIGS', ['cli-release-flags']):
             if c not in cfgs:
                 cfgs.append(c)
+    ctx = None
     try:
         dirs, key = extract.ensure(cfgs)
         F = {}
@@ -136,7 +137,10 @@ def main(argv):
         return 2
     except NoVerdict as e:
         print('NO-VERDICT property=%s: %s' % (prop, e))
-        return 2
+        if ctx is None or not ctx.violations:
+            return 2
+        # violations already established stand on their own; the missing anchor is reported alongside
+        ctx.note('partial run: %s' % e)
     except Exception:
         print('INFRA-FAILURE property=%s: checker crashed' % prop)
         traceback.print_exc()
